@@ -173,6 +173,8 @@ def _krel(kk, k):
     """relation of a k column to the grid it is evaluated on (common prefix if the lengths differ)"""
     m = min(len(kk), len(k))
     a, b = np.asarray(kk[:m], dtype=float), np.asarray(k[:m], dtype=float)
+    if np.any(np.isnan(a)):
+        return 'nan'
     if np.array_equal(a, b):
         return 'exact'
     if np.allclose(a, b):
